@@ -89,6 +89,13 @@ def _check_values(values):
 
     # convert np.array or list to pandas index
     elif isinstance(values, (list, np.ndarray)):
+        # steps must be whole numbers; a list of fractional floats would otherwise be
+        # silently truncated by the integer conversion below
+        as_array = np.asarray(values)
+        if as_array.dtype.kind == "f" and not np.all(np.mod(as_array, 1) == 0):
+            raise TypeError(
+                f"Invalid `fh`. The `fh` values must be integers, but found: {values}"
+            )
         values = pd.Int64Index(values, dtype=np.int)
 
     # otherwise, raise type error
